@@ -21,8 +21,8 @@ from mc.common import Collector, make_2d, close
 ID = "C08"
 LEVEL = "exploration"
 RULE = (
-    "full product spectrum x wind type/speed x wind direction (every 30 deg) x supplied roughness "
-    "{1e-4, 3e-3, solved} for the wind input (one unit per grid x depth); spectrum x depth x parameter set "
+    "full product spectrum x wind type/speed x wind direction (every 30 deg) x depth x supplied roughness "
+    "{1e-4, 3e-3, solved} for the wind input (units = grid x shard of the spectrum index); spectrum x depth x parameter set "
     "for ST4 / ST6 / Romero dissipation (Romero on the strictly positive subset); spectrum x wind x "
     "dE/dt variant x parameter set for the balance. Named restrictions: quick tier takes one mean "
     "direction per (shape,Hs,fp,width) combination ('diag_meandir': 45 deg * (combination index mod 8)) "
@@ -283,19 +283,18 @@ def same(a, b):
 # ----------------------------------------------------------------------------------------
 # units
 # ----------------------------------------------------------------------------------------
-WIND_GROUPS = {
-    "quick": {"all": [0, 2, 4, 6, 7]},
-    "thorough": {"low": [0, 1, 2], "high": [3, 4, 5], "ustar": [6, 7]},
-}
+SHARDS = {"quick": 3, "thorough": 9}
 
 
 def units(tier):
     us = []
+    n = SHARDS[tier]
     for g in GRIDS:
-        for dep in DEPTHS:
-            for wg, idx in WIND_GROUPS[tier].items():
-                us.append({"name": f"gen:{g}:depth{dep:g}:winds_{wg}", "kind": "gen", "grid": g, "depth": dep,
-                           "winds": idx, "cost": (20 if tier == "quick" else 100) * len(idx)})
+        # the wind-input product is sharded over the spectrum index (every shard holds all winds, directions
+        # and depths, so that the members of a batch differ in all of them)
+        for k in range(n):
+            us.append({"name": f"gen:{g}:shard{k}of{n}", "kind": "gen", "grid": g, "shard": [k, n],
+                       "cost": 100 if tier == "quick" else 300})
         for term in ("st4", "st6", "romero"):
             us.append({"name": f"diss:{term}:{g}", "kind": "diss", "grid": g, "term": term,
                        "cost": {"st4": 90, "st6": 70, "romero": 70}[term]})
@@ -341,26 +340,32 @@ def run_gen(unit):
     tier = unit["tier"]
     grid = GRIDS[unit["grid"]]
     f, d = grid["f"], grid["d"]
-    depth = float(unit["depth"])
+    k_shard, n_shard = unit["shard"]
     specs = spectra(unit["grid"], tier)
-    winds = [WINDS[i] for i in unit["winds"]]
+    wind_idx = [0, 2, 4, 6, 7] if tier == "quick" else list(range(len(WINDS)))
     psets = ["default", "nondefault"]
     gens = {p: make_generation(p) for p in psets}
     pool = Pool(f, d)
     df, dth = None, None
 
     # the product.  Named restriction 'params_by_parity': the parameter set is chosen by the parity of
-    # (spectrum index + wind index + direction index)
+    # (spectrum index + wind index + direction index + depth index)
     groups = {}
     for si in range(len(specs)):
-        for wi, (wtype, speed) in zip(unit["winds"], winds):
+        if si % n_shard != k_shard:
+            continue
+        for wi in wind_idx:
+            wtype, speed = WINDS[wi]
             for di, wdir in enumerate(WIND_DIRS):
-                p = psets[(si + wi + di) % 2]
-                groups.setdefault((wtype, p), []).append((si, wtype, speed, wdir, p))
+                for hi, depth in enumerate(DEPTHS):
+                    p = psets[(si + wi + di + hi) % 2]
+                    groups.setdefault((wtype, p), []).append((si, wtype, speed, wdir, p, depth))
     ns = len(SCALES)
-    single_z = 0
+    nz = len(Z0S)
+    single_pass = 0
     for (wtype, pset), members in sorted(groups.items()):
-        # batches are homogeneous in input type and parameter set (they are arguments of the call)
+        # batches are homogeneous in input type and parameter set (they are arguments of the call);
+        # spectrum, speed, direction, depth and supplied roughness differ from member to member
         gen = gens[pset]
         members = [members[i] for i in stride_order(len(members))]
         kw = dict(wind_speed_input_type=wtype)
@@ -370,17 +375,22 @@ def run_gen(unit):
             Es = np.stack([specs[m[0]][1] for m in batch])
             speeds = [m[2] for m in batch]
             wdirs = [m[3] for m in batch]
-            bkey = {"term": "st4_input", "grid": unit["grid"], "depth": depth, "wind_type": wtype, "params": pset,
-                    "batch": [specs[m[0]][0] for m in batch], "speeds": speeds, "wind_directions": wdirs}
+            deps = np.array([m[5] for m in batch])
+            bkey = {"term": "st4_input", "grid": unit["grid"], "wind_type": wtype, "params": pset,
+                    "batch": [specs[m[0]][0] for m in batch], "speeds": speeds, "wind_directions": wdirs,
+                    "depths": deps.tolist()}
 
             # ---- batch evaluations -----------------------------------------------------------
-            sp = pool.get(Es, depth)
+            sp = pool.get(Es, deps)
             if df is None:
                 df, dth = sp.frequency_step.values.copy(), sp.direction_step.values.copy()
             U, D = da(sp, speeds), da(sp, wdirs)
             res = {}
-            for zi, z0 in enumerate(Z0S):
-                Z = da(sp, [z0] * n)
+            # pass p supplies roughness Z0S[(m + p) % 2] to member m: every member sees every roughness,
+            # and neighbours in one call have different ones
+            zpass = [[Z0S[(m + p) % nz] for m in range(n)] for p in range(nz)]
+            for p in range(nz):
+                Z = da(sp, zpass[p])
                 r = lib(v, bkey, gen.rate, sp, U, D, roughness_length=Z, **kw)
                 b = lib(v, bkey, gen.bulk_rate, sp, U, D, roughness_length=Z, **kw)
                 if r is not None and (tuple(r.dims) != tuple(sp.dims) or r.shape != Es.shape):
@@ -389,8 +399,8 @@ def run_gen(unit):
                 if b is not None and (tuple(b.dims) != tuple(sp.dims_space_time) or b.shape != (n,)):
                     v.add(dict(bkey, check="bulk:dims"), f"bulk_rate dims {b.dims} shape {b.shape}")
                     b = None
-                res[("rate", zi)] = None if r is None else r.values
-                res[("bulk", zi)] = None if b is None else b.values
+                res[("rate", p)] = None if r is None else r.values
+                res[("bulk", p)] = None if b is None else b.values
             zs = lib(v, bkey, gen.roughness, U, D, sp, **kw)
             rn = lib(v, bkey, gen.rate, sp, U, D, **kw)
             bn = lib(v, bkey, gen.bulk_rate, sp, U, D, **kw)
@@ -398,14 +408,14 @@ def run_gen(unit):
             rn = None if rn is None else rn.values
             bn = None if bn is None else bn.values
             # the scaled copies c*E of all members, as one object of 3n points
-            sps = pool.get(np.concatenate([Es * cf for cf in SCALES]), depth)
+            sps = pool.get(np.concatenate([Es * cf for cf in SCALES]), np.tile(deps, ns))
             Us, Ds = da(sps, speeds * ns), da(sps, wdirs * ns)
-            for zi, z0 in enumerate(Z0S):
-                rs = lib(v, bkey, gen.rate, sps, Us, Ds, roughness_length=da(sps, [z0] * (n * ns)), **kw)
-                res[("scaled", zi)] = None if rs is None else rs.values.reshape((ns, n) + Es.shape[1:])
+            for p in range(nz):
+                rs = lib(v, bkey, gen.rate, sps, Us, Ds, roughness_length=da(sps, zpass[p] * ns), **kw)
+                res[("scaled", p)] = None if rs is None else rs.values.reshape((ns, n) + Es.shape[1:])
 
             # ---- members -------------------------------------------------------------------------
-            for mi, (si, _, speed, wdir, _) in enumerate(batch):
+            for mi, (si, _, speed, wdir, _, depth) in enumerate(batch):
                 label, E = specs[si]
                 key = {"term": "st4_input", "grid": unit["grid"], "depth": depth, "spectrum": label,
                        "wind": [wtype, speed, wdir], "params": pset}
@@ -413,17 +423,18 @@ def run_gen(unit):
                 sp1 = pool.get(E[None], depth)
                 U1, D1 = da(sp1, [speed]), da(sp1, [wdir])
                 nontrivial = False
-                single_z = (single_z + 1) % len(Z0S)
-                for zi, z0 in enumerate(Z0S):
+                single_pass = (single_pass + 1) % nz
+                for p in range(nz):
                     c.evaluations += 1
+                    z0 = zpass[p][mi]
                     kz = dict(key, z0=z0)
-                    R = res[("rate", zi)]
-                    B = res[("bulk", zi)]
+                    R = res[("rate", p)]
+                    B = res[("bulk", p)]
                     if R is None or B is None:
                         continue
                     R, B = R[mi], float(B[mi])
-                    if zi == single_z:
-                        # the same point alone (the supplied roughness alternates from case to case)
+                    if p == single_pass:
+                        # the same point alone (the pass that is repeated alone alternates from case to case)
                         Z1 = da(sp1, [z0])
                         r1 = lib(v, kz, gen.rate, sp1, U1, D1, roughness_length=Z1, **kw)
                         b1 = lib(v, kz, gen.bulk_rate, sp1, U1, D1, roughness_length=Z1, **kw)
@@ -439,7 +450,7 @@ def run_gen(unit):
                         continue
                     nontrivial = nontrivial or bool(np.any(R > 0))
                     # proportionality at fixed roughness
-                    Rs = res[("scaled", zi)]
+                    Rs = res[("scaled", p)]
                     if Rs is not None:
                         for ci, cf in enumerate(SCALES):
                             if not same(Rs[ci, mi], cf * R):
@@ -481,7 +492,8 @@ def run_gen(unit):
                 if pset != "default":
                     c.cat("nondefault_parameters")
             if len(c.samples) < 2 and n == 3:
-                c.sample({"batch": bkey, "bulk_rate_z0_1e-4": res[("bulk", 0)], "solved_roughness": zs})
+                c.sample({"batch": bkey, "roughness_pass_0": zpass[0], "bulk_rate_pass_0": res[("bulk", 0)],
+                          "solved_roughness": zs})
     return c.result()
 
 
@@ -741,4 +753,9 @@ def run_bal(unit):
 
 
 def run_unit(unit):
-    return {"gen": run_gen, "diss": run_diss, "bal": run_bal}[unit["kind"]](unit)
+    import time
+
+    t0 = time.process_time()
+    r = {"gen": run_gen, "diss": run_diss, "bal": run_bal}[unit["kind"]](unit)
+    r["extra"]["cpu_s"] = round(time.process_time() - t0, 1)  # summed over the units in the evidence
+    return r
